@@ -39,7 +39,7 @@ bool doubles_equal(double d1, double d2, double threshold)
     if (PlatformSpecificIsNan(d1) || PlatformSpecificIsNan(d2) || PlatformSpecificIsNan(threshold))
         return false;
 
-    if (PlatformSpecificIsInf(d1) && PlatformSpecificIsInf(d2))
+    if (PlatformSpecificIsInf(d1) && PlatformSpecificIsInf(d2) && ((d1 > 0) == (d2 > 0)))
     {
         return true;
     }
